@@ -24,7 +24,7 @@ This transport supports:
 """
 
 import threading
-from collections import defaultdict, deque
+from collections import deque
 from typing import Any, Dict, Optional, Callable
 from concurrent.futures import Future
 from fnmatch import fnmatch
@@ -106,9 +106,7 @@ class InMemorySemantivaTransport(SemantivaTransport):
 
     def __init__(self) -> None:
         # channel -> (deque of Message, threading.Lock)
-        self._queues: Dict[str, tuple[deque, threading.Lock]] = defaultdict(
-            lambda: (deque(), threading.Lock())
-        )
+        self._queues: Dict[str, tuple[deque, threading.Lock]] = {}
         self._connected = False
 
     def connect(self) -> None:
@@ -148,7 +146,12 @@ class InMemorySemantivaTransport(SemantivaTransport):
         Returns:
             Future if require_ack=True, else None.
         """
-        q, lock = self._queues[channel]
+        entry = self._queues.get(channel)
+        if entry is None:
+            # dict.setdefault is atomic: concurrent first publishers of a channel
+            # all end up with the same (queue, lock) pair.
+            entry = self._queues.setdefault(channel, (deque(), threading.Lock()))
+        q, lock = entry
         msg = Message(
             data=data,
             context=context,
